@@ -1,4 +1,5 @@
 import F3.Proofs.InstanceDecision
+import F3.Props.C08
 /-!
 # C03 — every reported decision is a self-contained, verifiable finality proof (model part)
 
@@ -61,6 +62,12 @@ theorem decision_strong_quorum (cfg : Cfg) (tbl : Table) (input : Chain) (ops : 
     3 * (sumPow tbl d.signers : Int) ≥ 2 * (tbl.total : Int) := by
   have h := (decision_wellformed cfg tbl input ops hops d hd).strong
   simpa [strongQ, F3.Spec.Quorum.strong] using h
+
+/-- the model's quorum test is the code's `IsStrongQuorum` (regenerated from `gpbft/gpbft.go` on this run) -/
+theorem strongQ_is_the_codes_predicate (t : Table) (p : Nat) :
+    strongQ t p = F3.Gen.isStrongQuorum (p : Int) (t.total : Int) := by
+  rw [Bool.eq_iff_iff, F3.Props.C08.strong_iff _ _ (by omega)]
+  simp [strongQ, F3.Spec.Quorum.strong]
 
 /-- whenever `FindStrongQuorumFor` finds a quorum in a well-formed tally it is a minimal prefix of the
 sorted signer indices: strictly increasing, in range, positive power, strong -/
